@@ -134,6 +134,7 @@ JudgeBackward(e) ==
   LET h == e.args[1]
       root == S.hd[h].n
       seedOpt == IF Has(e, "seedh") THEN Some(HandleT(S, e.seedh))       \* a clone of a live array is the seed
+                 ELSE IF Has(e, "seedv") THEN Some(T(e.seedd, HandleT(S, e.seedv).v))   \* a reshaped view of a live array
                  ELSE IF Has(e, "seed") THEN Some(TIn(e.seed)) ELSE None
       adj == RefAdj(S, root, SeedOf(S, h, seedOpt))
       plus(n) == Accumulate(S.grad[n], adj[n])
